@@ -1288,8 +1288,8 @@ Theorem search_pages_refuted :
     listable 0 1 recs t_twice = true /\ listable 0 1 recs t_never = true /\
     match search_traces 0 1 recs b1 1, search_traces 0 1 recs b2 2 with
     | Some p1, Some p2 =>
-      count_occ str_dec (map ts_id (p1 ++ p2)) t_twice = 2%nat /\
-      count_occ str_dec (map ts_id (p1 ++ p2)) t_never = 0%nat
+      count_if (fun s => str_eqb (ts_id s) t_twice) (p1 ++ p2) = 2 /\
+      count_if (fun s => str_eqb (ts_id s) t_never) (p1 ++ p2) = 0
     | _, _ => False
     end.
 Proof.
@@ -1359,7 +1359,7 @@ Proof.
       apply andb_true_iff in Hqq as [H1 H2]. apply str_eqb_eq in H1.
       rewrite (nodup_id_inj recs q p Hnd Hq Hp) in H2 by congruence. congruence.
   - rewrite (proj2 (svc_map_spec recs _ Hnd)).
-    + symmetry. f_equal. apply not_true_is_false. intro Hc. apply existsb_exists in Hc as [q [Hq Hqq]].
+    + symmetry. apply negb_true_iff. apply not_true_is_false. intro Hc. apply existsb_exists in Hc as [q [Hq Hqq]].
       apply andb_true_iff in Hqq as [H1 _].
       assert (existsb (fun p => str_eqb (sp_id p) (sp_parent s)) recs = true); [|congruence].
       apply existsb_exists. exists q. tauto.
@@ -1389,26 +1389,25 @@ Theorem red_metrics_exact : forall recs svc,
                        (Some (pct_spec_x100 ds 95)) (Some (pct_spec_x100 ds 99)))
     end.
 Proof.
-  intros recs svc Hnd Hb es ds. unfold red_metrics. rewrite lookup_map_snd.
+  intros recs svc Hnd Hb. cbv zeta. unfold red_metrics. rewrite lookup_map_snd.
   pose proof (acc_fold svc (entry_spans recs) [] [] eq_refl) as Hacc. unfold acc_inv in Hacc. cbn [app] in Hacc.
-  assert (Hes : filter (fun s => str_eqb (sp_service s) svc) (entry_spans recs) = es).
-  { unfold entry_spans, es. rewrite filter_filter_and. apply filter_ext. intro s.
+  assert (Hes : filter (fun s => str_eqb (sp_service s) svc) (entry_spans recs)
+                = filter (fun s => entry_spec recs s && str_eqb (sp_service s) svc) recs).
+  { unfold entry_spans. rewrite filter_filter_and. apply filter_ext. intro s.
     rewrite (is_entry_spec recs s Hnd). reflexivity. }
-  rewrite Hes in Hacc. rewrite Hacc. destruct es as [|e0 es'] eqn:Ees; [reflexivity|]. rewrite <- Ees in *.
+  rewrite Hes in Hacc. rewrite Hacc. clear Hacc Hes.
+  assert (Hbes : Forall (fun s => sp_dur s < pow2_64) (filter (fun s => entry_spec recs s && str_eqb (sp_service s) svc) recs)).
+  { apply Forall_forall. intros s Hs. apply filter_In in Hs as [Hs _]. rewrite Forall_forall in Hb. apply Hb, Hs. }
+  destruct (filter (fun s => entry_spec recs s && str_eqb (sp_service s) svc) recs) as [|e0 es']; [reflexivity|].
+  set (es := e0 :: es') in *.
   cbn [option_map]. f_equal. unfold red_of_acc, acc_of. cbn [ra_cnt ra_err ra_durs]. rewrite map_map.
   set (d0 := map (fun s => sp_dur s / 1000000) es) in *.
-  assert (Hbes : Forall (fun s => sp_dur s < pow2_64) es).
-  { apply Forall_forall. intros s Hs. unfold es in Hs. rewrite Ees in Hs. rewrite <- Ees in Hs.
-    assert (In s recs).
-    { assert (Hin : In s (filter (fun s => entry_spec recs s && str_eqb (sp_service s) svc) recs)) by (rewrite Ees; exact Hs).
-      apply filter_In in Hin. tauto. }
-    rewrite Forall_forall in Hb. apply Hb. assumption. }
   assert (Hb0 : bounded d0) by (apply ms_bounded, Hbes).
-  assert (Hne0 : d0 <> []) by (unfold d0; rewrite Ees; discriminate).
+  assert (Hne0 : d0 <> []) by (unfold d0, es; discriminate).
   assert (Hb1 : bounded (pp_mutate d0)).
   { unfold bounded. eapply Permutation_Forall; [apply Permutation_sym, pp_mutate_perm | exact Hb0]. }
   assert (Hne1 : pp_mutate d0 <> []).
-  { intro Hc. apply Hne0. apply Permutation_nil. rewrite <- Hc. apply Permutation_sym, pp_mutate_perm. }
+  { intro Hc. apply Hne0. apply Permutation_nil. rewrite <- Hc. apply pp_mutate_perm. }
   assert (Hs1 : n_sort (pp_mutate d0) = n_sort d0) by (apply n_sort_perm_eq, pp_mutate_perm).
   rewrite (find_percentile_correct d0 50 Hne0 ltac:(lia) Hb0).
   rewrite !(find_percentile_correct (pp_mutate d0) _ Hne1) by (try lia; exact Hb1).
